@@ -262,7 +262,7 @@ def hist_build(case):
 def hist_fn(case):
     r = core.R(case)
     rthist.run_history(r, case['hist'], lambda: hist_build(case), 'ktables/%s/%s' % (case['kind'], case['grids']),
-                       env_apply=lambda which: hist_env(case, which), as_numpy=bool(case.get('np')))
+                       env_apply=lambda which: hist_env(case, which), as_numpy=bool(case.get('np')), entry=case.get('entry', 'model'))
     return r
 
 
@@ -287,4 +287,6 @@ def explore(ctx):
     ctx.bounds.update(histories=len(hcases), history_depth=2 if ctx.tier == 'quick' else 3)
     # every single update once more with the value handed over as a numpy float64 scalar
     hcases += [dict(c_, np=True) for c_ in hcases if len(c_['hist']) == 1]
+    # ... and with the first evaluation after the update going through model_full_contrib / model_contrib
+    hcases += [dict(c_, entry=e_) for c_ in hcases if len(c_['hist']) == 1 and not c_.get('np') for e_ in ('full', 'contrib')]
     ctx.run_cases('hist_fn', hcases, phase='histories')
